@@ -19,7 +19,16 @@ def frames(depth):
 def reset(shape, depth=0):
     st = ST._shape_storage
     if hasattr(st, "memo_stack"):
-        del st.memo_stack
+        try:
+            del st.memo_stack
+        except AttributeError:
+            # visible on the object but not stored in this thread's own namespace: a class-level attribute, i.e. ONE list shared by all threads
+            T.case(("root", "class-level-stack"))
+            T.fail("thread-local:memo_stack", "the-stack-attribute-lives-in-the-calling-thread's-own-namespace(not-on-the-class)", expected="deletable per-thread attribute", actual=f"type(_shape_storage).memo_stack = {getattr(type(st), 'memo_stack', None)!r}")
+            try:
+                getattr(type(st), "memo_stack").clear()
+            except Exception:
+                pass
     if shape == "S2":
         st.memo_stack = []
     elif shape == "S3":
